@@ -1410,6 +1410,12 @@ impl Scenario for Limits {
         match case {
             Case::Depth { op, shape, depth, stack, build } => {
                 stats.inc2("depth_cases", &format!("{op}:{build}:{}MiB", stack >> 20));
+                if *stack >= BIG_STACK {
+                    stats.inc("probe/big_stack_case");
+                }
+                if build == ABORT_BUILD {
+                    stats.inc("probe/abort_build_case");
+                }
                 stats.inc2("outcome", &format!("{op}:{label}"));
                 if *depth >= 2 {
                     let mut h = Fnv::new();
@@ -1530,18 +1536,22 @@ impl Scenario for Limits {
         m.insert("smallest_crashing_depth_observed".into(), J::Object(mins));
         m.insert(
             "fault_kinds".into(),
-            json!({"stack_exhaustion_observed": stats.get("probe/stack_exhaustion_observed"), "small_stack_budget_cases": "2 MiB and 1 MiB stacks", "overflow_checked_build_cases": "build=checked"}),
+            json!({"stack_exhaustion_observed": stats.get("probe/stack_exhaustion_observed"), "small_stack_budget_cases": "2 MiB and 1 MiB stacks", "large_stack_budget_cases (1 GiB, 33,000 and 66,000 levels)": stats.get("probe/big_stack_case"),
+                   "overflow_checked_build_cases": "build=checked", "panic_abort_build_cases": stats.get("probe/abort_build_case"),
+                   "memory_limited_node": "largest single allocation request recorded per case; above 1 GiB (8 GiB for to_pretty_string) is a violation"}),
         );
         m.insert("child_processes".into(), json!(stats.steps));
         m.insert(
             "components".into(),
             json!({"real": ["jsonb text parser", "encoder", "decoder", "to_string/to_pretty_string", "compare", "jsonpath selector and parser", "index-taking functions"],
-                   "simulated": ["the process boundary (one child per case)", "the thread stack budget", "the arithmetic-check configuration of the build"], "stub": []}),
+                   "simulated": ["the process boundary (one child per case)", "the thread stack budget (1 MiB - 1 GiB)", "the build configuration (arithmetic checks on/off, optimisation, panic=unwind/abort)", "the node's memory limit (accounting allocator)"], "stub": []}),
         );
         m
     }
 
     fn probes(&self) -> Vec<&'static str> {
-        vec!["probe/i32_extreme_index", "probe/completed_at_100k_or_deeper", "probe/stack_exhaustion_observed", "probe/api_variant_shallow_today"]
+        vec![
+            "probe/big_stack_case",
+            "probe/abort_build_case","probe/i32_extreme_index", "probe/completed_at_100k_or_deeper", "probe/stack_exhaustion_observed", "probe/api_variant_shallow_today"]
     }
 }
